@@ -242,6 +242,40 @@ def output_limit_selection(prog, res):
     res.need(R, 4)
 
 
+def x2_fast_loop_bound(prog, res):
+    """T8: the double-symbol (X2) fast loop regenerates 5..10 bytes per stream and iteration, each stream at its own pace; the
+    number of unchecked iterations must therefore be bounded by the room left in EVERY output segment (a min over a stream
+    index), and by the input left; the single-symbol loop advances all streams in lock step and may bound by one segment."""
+    R = "T8.fast-loop-iteration-bound"
+    for name, every in (("HUF_decompress4X2_usingDTable_internal_fast_c_loop", True), ("HUF_decompress4X1_usingDTable_internal_fast_c_loop", False)):
+        f = prog.fn(name)
+        # divisions (oend[..] - op[..]) / K
+        per_stream, fixed = [], []
+        for b, i, r in f.roots():
+            for x in walk(r):
+                if x.get("k") == "bin" and x.get("op") == "/" and const_val(x["rhs"]) in (5, 10):
+                    idxs = [y for y in f.walk_resolved(x["lhs"]) if y.get("k") == "idx"]
+                    if not idxs:
+                        continue
+                    if any(const_val(y["i"]) is None for y in idxs):
+                        per_stream.append((b, i, x))
+                    else:
+                        fixed.append((b, i, x))
+        in_bound = [x for b, i, r in f.roots() for x in walk(r) if x.get("k") == "bin" and x.get("op") == "/" and const_val(x["rhs"]) == 7]
+        res.check(bool(in_bound), R, name + ":input-bound", f.loc, "iterations bounded by the input left (7 bytes per iteration)", "input-side iteration bound vanished")
+        if every:
+            ok = bool(per_stream)
+            if ok:
+                b, i, x = per_stream[0]
+                # inside a loop over the stream index: the block can reach itself
+                ok = b in f.reachable(f.succs(b))
+            res.check(ok, R, name + ":every-output-segment", f.loc, "iterations bounded by the room left in each of the four output segments (min over the stream index)",
+                      "the X2 fast loop bounds its unchecked iterations by one output segment only: a faster stream overruns its segment and a valid frame is rejected as corrupted")
+        else:
+            res.check(bool(fixed) or bool(per_stream), R, name + ":output-segment", f.loc, "iterations bounded by the output left", "output-side iteration bound vanished")
+    res.need(R, 4)
+
+
 def run(tier):
     res = Result("C04", tier)
     tus, info = extract(["decompress", "common", "compress"])
@@ -253,6 +287,7 @@ def run(tier):
     dispatch_wrappers(prog, res)
     one_sequence_decoder(prog, res)
     output_limit_selection(prog, res)
+    x2_fast_loop_bound(prog, res)
     return res.finish(
         explanation="The 160 cells of LL/OF/ML_defaultDTable are compared with the table obtained by running the "
                     "format document's construction algorithm (re-implemented in the checker from "
